@@ -542,9 +542,43 @@ func c01walk(c *Ctx) {
 		}
 		nU, okU := 0, false
 		var sliceU ssa.Value
-		if clo != nil {
-			nU, okU, sliceU = lockScan(clo, "Unlock")
+		// the same slice under another (named) type is the same slice
+		strip := func(v ssa.Value) ssa.Value {
+			for v != nil {
+				if ct, isCT := v.(*ssa.ChangeType); isCT {
+					v = ct.X
+					continue
+				}
+				if srcs := cellSources(v); len(srcs) == 1 && srcs[0] != v {
+					v = srcs[0]
+					continue
+				}
+				break
+			}
+			return v
 		}
+		if clo != nil {
+			if clo.Synthetic != "" && len(clo.FreeVars) == 1 {
+				// a bound method value (return scope.unlock): the method is the release function, its receiver the slice
+				var target *ssa.Function
+				for _, cl := range an.Calls(clo, false) {
+					if cal := cl.Common().StaticCallee(); cal != nil && len(cal.Blocks) > 0 {
+						target = cal
+					}
+				}
+				for _, alt := range an.ReturnAlts(fn) {
+					if mc, isMC := an.Origin(alt.Results[0]).(*ssa.MakeClosure); isMC && target != nil && len(mc.Bindings) == 1 {
+						nU, okU, sliceU = lockScan(target, "Unlock")
+						if len(target.Params) >= 1 && strip(sliceU) == ssa.Value(target.Params[0]) {
+							sliceU = mc.Bindings[0]
+						}
+					}
+				}
+			} else {
+				nU, okU, sliceU = lockScan(clo, "Unlock")
+			}
+		}
+		sliceL, sliceU = strip(sliceL), strip(sliceU)
 		isParam := len(fn.Params) == 2 && sliceL == ssa.Value(fn.Params[1])
 		r.Check(nL == 1 && okL && clo != nil && nU == 1 && okU && isParam && sliceU == sliceL, "LOCK", fkey(fn)+"/wrapper", c.Pos(fn.Pos()), "locks every element of the argument, the returned func unlocks every element",
 			sprintf("the lock wrapper is broken: Lock sites=%d all in a full scan of the argument=%v (argument=%v), returns a closure=%v, Unlock sites in it=%d all in a full scan=%v of the same slice=%v", nL, okL, isParam, clo != nil, nU, okU, sliceU == sliceL))
